@@ -124,8 +124,7 @@ class Fake:
                 # multiprocessing.Queue pickles in a feeder thread; an item that cannot be pickled is dropped there (traceback on stderr)
                 try:
                     import pickle
-                    pickle.dumps(x)
-                    self.items.append(x)
+                    self.items.append(pickle.dumps(x))
                 except Exception:
                     S.events.append("unpicklable-item-dropped-by-queue")
                 S.switch(me())
@@ -134,14 +133,15 @@ class Fake:
                 n = me()
                 if S.bound_hit and n == "parent":
                     raise StepBound()
+                import pickle
                 if timeout is None:
                     S.switch(n, lambda: bool(self.items))
-                    return self.items.pop(0)
+                    return pickle.loads(self.items.pop(0))     # (re-created in the receiving process: may raise, as Queue.get does)
                 S.switch(n)
                 if S.bound_hit and n == "parent":
                     raise StepBound()
                 if self.items:
-                    return self.items.pop(0)
+                    return pickle.loads(self.items.pop(0))
                 S.now += float(timeout)
                 raise pyqueue.Empty
 
@@ -231,6 +231,15 @@ class TwoArgError(Exception):
     pass
 
 
+class InitTwoError(Exception):
+    """an exception class with its own constructor signature (code, message) that passes ONE argument on to Exception - as many
+    library errors do; pickle re-creates it as InitTwoError(*self.args), which fails in the receiving process"""
+
+    def __init__(self, code, message):
+        super().__init__("%s: %s" % (code, message))
+        self.code = code
+
+
 def is_transient(kind):
     """kind 7: the connection drops on the first two attempts only - the retries heal it, the task succeeds"""
     return kind % 9 == 7
@@ -314,6 +323,8 @@ def run_case(n, par, max_tasks, fail_ids, tolerate, choices, consumer_delays, us
                 def cb(_pool, tr):
                     # a reporting callback: hands the outcome on, but trips over some of them
                     if tr.device_id in bad:
+                        if callback.get("exc_kind") == 1:
+                            raise InitTwoError(7, "cb-boom-%s" % tr.device_id)
                         raise RuntimeError("cb-boom-%s" % tr.device_id)
                     return tr
                 pool.add_callback(cb, in_thread=bool(callback.get("in_thread")))
